@@ -189,6 +189,9 @@ class Wrapp(util.WrapperMixin):
         node.eval_template("PY_module_filename")
         modinfo = ModuleTuple([], [], [], [], [])
         fileinfo = FileTuple([], [], [], [])
+        # Enumerations are added to the module which is being written.
+        enum_impl_outer = self.enum_impl
+        self.enum_impl = []
 
         if top:
             # have one namespace level, then replace name each time
@@ -256,6 +259,7 @@ class Wrapp(util.WrapperMixin):
             self._pop_splicer("function")
 
         self.write_module(node, modinfo, fileinfo, top)
+        self.enum_impl = enum_impl_outer
 
     def register_submodule(self, ns, modinfo):
         """Create code to add submodule to a module.
@@ -2712,7 +2716,7 @@ extern PyObject *{PY_prefix}error_obj;
         """
         append_format(output, submodule_begin, fmt)
         output.extend(modinfo.type_object_creation)
-#        output.extend(self.enum_impl)
+        output.extend(self.enum_impl)
         if modinfo.call_arraydescr:
             output.append("")
             output.append("// Define PyArray_Descr for structs")
